@@ -203,7 +203,7 @@ def run_plan(plan, scratch, timeout=None, keep=False, _retry=0):
     return dict(rc=rc, log=out.decode(errors='replace'), err=err, cmd=cmd, built=built)
 
 
-HANG_CPU = 10.0
+HANG_CPU = 5.0
 
 
 def _cpu_seconds(pid):
@@ -1131,6 +1131,8 @@ def analyze(plan, res):
                         done.append((ix, parse_status(f, 2)[0], f[0]))
                 for i, stt, rc in done:
                     side, mid = who[i]
+                    if rc == 'instatus':        # MPI_ERR_IN_STATUS: the per-request code is in the status
+                        rc = stt['err']
                     if active.pop(qs[i], None) is None:
                         add('req-twice', 'rank %d: request of %s %s reported complete twice' % (rank, side, mid))
                         continue
@@ -2560,7 +2562,7 @@ class MpiCheck(dst.Check):
     @property
     def shrink_budget(self):
         import sys
-        return 150 if 'thorough' in sys.argv else 40
+        return 120 if 'thorough' in sys.argv else 25
     real_vs_stub = {
         'SMPI (matching, protocols, datatypes, communicators, shared malloc, privatization)': 'real',
         'SimGrid kernel, network and CPU models, contexts': 'real',
@@ -2599,20 +2601,43 @@ class MpiCheck(dst.Check):
     def mine(self, cls):
         return cls in ALWAYS or any(cls == o or cls.startswith(o) for o in self.own)
 
-    EXPLAINS_STALL = ('overtake', 'recv-order', 'probe-order', 'stuck-match', 'trunc-deadlock', 'trunc-hang')
+    ROOTS = ('overtake', 'recv-order', 'probe-order', 'stuck-match', 'trunc-stall')
+    DATATYPE = ('layout-', 'xfer', 'pack', 'unpack')
+
+    @staticmethod
+    def family(c):
+        """fine class of analyze() -> stable short id reported by the checks"""
+        if c.startswith('layout-'):
+            return c.split(':')[0]
+        if c == 'xfer-canary':
+            return c
+        if c.startswith('xfer'):
+            return 'xfer'
+        if c.startswith(('packsize', 'pack', 'unpack')):
+            return c.split(':')[0]
+        if c in ('trunc-deadlock', 'trunc-hang'):
+            return 'trunc-stall'
+        if c == 'group-order:ginter':
+            return 'inter-order'
+        return c
 
     def oracle(self, plan, res):
         seen = set()
         out = []
-        classes = [c for c, _ in res['viol']]
-        # a stall explained by a point-to-point ordering failure is reported as that failure (by C28), not as a stall
-        explained = any(c in self.EXPLAINS_STALL for c in classes)
-        for c, m in res['viol']:
-            if explained and c in ('deadlock', 'hang'):
-                continue
-            if self.mine(c) and c not in seen:
-                seen.add(c)
-                out.append((c, m))
+        fam = [(self.family(c), c, m) for c, m in res['viol']]
+        classes = [f for f, _, _ in fam]
+        roots = [f for f in classes if f in self.ROOTS]
+        dtype = any(f.startswith(self.DATATYPE) for f in classes)
+        for f, c, m in fam:
+            if roots and f not in self.ROOTS and f != 'status-testall' and not f.startswith(('split-', 'dup-', 'create-', 'group-',
+                                                                                           'inter-order', 'translate', 'compare',
+                                                                                           'layout-', 'global-leak', 'psm-')):
+                continue    # once a message was matched out of order, later observations of the run are consequences
+            if dtype and not f.startswith(self.DATATYPE) and f in ('abort', 'crash-segv', 'crash-bus', 'deadlock', 'hang', 'count-type'):
+                continue    # the datatype engine wrote outside its buffers: blame the datatype failure
+            if self.mine(f) and f not in seen:
+                seen.add(f)
+                out.append((f, ('[%s] ' % c if c != f else '') + m))
         return out
 
     def signature(self, plan, res):
@@ -2624,7 +2649,7 @@ class MpiCheck(dst.Check):
             if k.startswith('probe_') and k not in self.probes:
                 del s[k]
         for c, _ in res['viol']:
-            if not self.mine(c):
+            if not self.mine(self.family(c)):
                 s['foreign_' + c] = s.get('foreign_' + c, 0) + 1
         s['runs_complete'] = 1 if res['complete'] else 0
         return s
@@ -2640,13 +2665,14 @@ class MpiCheck(dst.Check):
             # with smpi/async-small-thresh > 0 two messages / two receives of one stream can be matched out of order
             'mailbox_split_order': lambda plan, cls, msg: cls in ('overtake', 'recv-order', 'probe-order', 'stuck-match') and athr(plan) > 0,
             # a receive smaller than the threshold waits in the small mailbox, the oversized send goes to the large one
-            'trunc_small_recv_first': lambda plan, cls, msg: cls in ('trunc-deadlock', 'trunc-hang') and athr(plan) > 0,
+            'trunc_small_recv_first': lambda plan, cls, msg: cls == 'trunc-stall' and athr(plan) > 0,
             # MPI_Testall completes individual requests although it returns flag=0; their status is lost
             'testall_consumes_requests': lambda plan, cls, msg: cls == 'status-testall',
             'datatype_bounds': lambda plan, cls, msg: cls.startswith('layout-'),
             'datatype_transfer': lambda plan, cls, msg: cls.startswith(('xfer', 'pack', 'unpack')),
+            'datatype_memory': lambda plan, cls, msg: cls in ('crash-segv', 'abort') and bool(plan.get('types')),
             'zero_size_type_division': lambda plan, cls, msg: cls == 'crash-fpe',
-            'group_intersection_order': lambda plan, cls, msg: cls == 'group-order:ginter',
+            'group_intersection_order': lambda plan, cls, msg: cls == 'inter-order',
             'psm_offset_drops_private_blocks': lambda plan, cls, msg: cls == 'psm-copy',
             'psm_tail_pages_shared': lambda plan, cls, msg: cls == 'psm-canary',
         }
